@@ -46,7 +46,10 @@ impl<'a> vcf::variant::record::info::field::value::array::Values<'a, i32> for Va
 
 impl<'a> vcf::variant::record::samples::series::value::array::Values<'a, i32> for Values<'a, i8> {
     fn len(&self) -> usize {
-        self.src.len()
+        // The end-of-vector padding is not part of the value (see `iter`).
+        self.iter()
+            .filter(|value| !matches!(value, Int8::EndOfVector))
+            .count()
     }
 
     fn iter(&self) -> Box<dyn Iterator<Item = io::Result<Option<i32>>> + '_> {
@@ -85,7 +88,10 @@ impl<'a> vcf::variant::record::info::field::value::array::Values<'a, i32> for Va
 
 impl<'a> vcf::variant::record::samples::series::value::array::Values<'a, i32> for Values<'a, i16> {
     fn len(&self) -> usize {
-        self.src.len() / mem::size_of::<i16>()
+        // The end-of-vector padding is not part of the value (see `iter`).
+        self.iter()
+            .filter(|value| !matches!(value, Int16::EndOfVector))
+            .count()
     }
 
     fn iter(&self) -> Box<dyn Iterator<Item = io::Result<Option<i32>>> + '_> {
@@ -124,7 +130,10 @@ impl<'a> vcf::variant::record::info::field::value::array::Values<'a, i32> for Va
 
 impl<'a> vcf::variant::record::samples::series::value::array::Values<'a, i32> for Values<'a, i32> {
     fn len(&self) -> usize {
-        self.src.len() / mem::size_of::<i32>()
+        // The end-of-vector padding is not part of the value (see `iter`).
+        self.iter()
+            .filter(|value| !matches!(value, Int32::EndOfVector))
+            .count()
     }
 
     fn iter(&self) -> Box<dyn Iterator<Item = io::Result<Option<i32>>> + '_> {
@@ -163,7 +172,10 @@ impl<'a> vcf::variant::record::info::field::value::array::Values<'a, f32> for Va
 
 impl<'a> vcf::variant::record::samples::series::value::array::Values<'a, f32> for Values<'a, f32> {
     fn len(&self) -> usize {
-        self.src.len() / mem::size_of::<f32>()
+        // The end-of-vector padding is not part of the value (see `iter`).
+        self.iter()
+            .filter(|value| !matches!(value, Float::EndOfVector))
+            .count()
     }
 
     fn iter(&self) -> Box<dyn Iterator<Item = io::Result<Option<f32>>> + '_> {
